@@ -290,6 +290,46 @@ def r6_no_identity_of_map_nodes(ctx):
                  '' if ok else 'the test is `%s`: anything stricter than equal ids rejects the same loop of a re-loaded map' % norm(t))
 
 
+def r7_reanchor_at_gs(ctx):
+    """every functional group restarts the walk at the GS node of the TRANSACTION map - whether or not the map file
+    had to be (re)loaded for it: in the GS branch of both drivers the current node is re-bound from
+    `<transaction map>.getnodebypath('/ISA_LOOP/GS_LOOP/GS')` on every path through the branch (a second group of
+    the same type would otherwise be walked from the control map, which has no transaction sets)"""
+    for mod, qual, target in (('x12context', 'X12ContextReader.iter_segments', 'self.x12_map_node'), ('x12n_document', 'x12n_document', 'node')):
+        fn = ctx.func(mod, qual)
+        g = ctx.cfg(fn)
+        arms = [(lab, body, node) for lab, body, extra, node in
+                A.branch_chain_all(fn, A.name_or_call_pred('seg_id', 'seg.get_seg_id()')) if lab == 'GS'
+                and any(A.call_target(c)[1] == 'get_filename' for st_ in body for c in A.calls_in(st_))]
+        if not arms:
+            raise AnalysisError('%s:%s: GS branch not found' % (mod, qual))
+        for lab, body, node in arms:
+            first = None
+            inside = set()
+            for st in body:
+                for x in ast.walk(st):
+                    inside.add(id(x))
+            nodes_in = [nd for nd in g.nodes if nd.stmt is not None and id(nd.stmt) in inside or (nd.ast is not None and id(nd.ast) in inside)]
+            if not nodes_in:
+                continue
+
+            def rebinds(nd):
+                a = nd.ast
+                if nd.kind == 'stmt' and isinstance(a, ast.Assign) and any(path_of(t) == target for t in a.targets):
+                    v = a.value
+                    return isinstance(v, ast.Call) and A.call_target(v) == ('cur_map', 'getnodebypath') and v.args and \
+                        (A.const(v.args[0]) == '/ISA_LOOP/GS_LOOP/GS' or isinstance(v.args[0], ast.Name))
+                return False
+            entry = min(nodes_in, key=lambda nd: nd.id)
+            ids_in = {nd.id for nd in nodes_in}
+            path = g.find_path(entry, lambda n: n.id not in ids_in and n is not g.rexit and n.kind != 'raise', blocked=rebinds,
+                               edge_ok=lambda a_, l, b_: l != 'exc') if not rebinds(entry) else None
+            yield Ob('%s:%s GS branch re-binds the current node to the transaction map\'s GS on every path' % (mod, qual), path is None,
+                     ctx.floc(fn, node), '' if path is None else 'a path through the GS branch (line %s) leaves %s at the control map\'s GS node: '
+                     'the segments of this group are then not found in any transaction set'
+                     % ([n.lineno for n in path if n.lineno][-2:-1], target))
+
+
 RULES = [
     Rule('C09.R1', 'the tree under construction is yielded on every path to the end of the generator', r1_flush, floor=1),
     Rule('C09.R2', 'each source segment is placed in the tree or yielded exactly once per iteration', r2_one_disposition, floor=3),
@@ -297,4 +337,5 @@ RULES = [
     Rule('C09.R4', 'every self.method() in x12context resolves; _add_segment attaches to the computed loop, pops before pushes', r4_resolution_and_attachment, floor=18),
     Rule('C09.R5', 'shared with C10.R5: child loops are placed by map position after existing siblings', r5_shared_insertion, floor=6),
     Rule('C09.R6', 'nodes are compared by id/path, never by identity (the map object is replaced at a 278 BHT)', r6_no_identity_of_map_nodes, floor=1),
+    Rule('C09.R7', 'both drivers restart every functional group at the GS node of the transaction map', r7_reanchor_at_gs, floor=1),
 ]
